@@ -230,7 +230,19 @@ def t_yoda(src):
     return ast.unparse(ast.fix_missing_locations(tree)) + "\n"
 
 
-MODES = {"dropelse": t_dropelse, "yoda": t_yoda, "annotate": t_annotate, "reformat": t_reformat, "shift": t_shift, "log": t_log, "rename": t_rename, "messages": t_messages, "swapelse": t_swapelse}
+def t_splitand(src):
+    """`if a and b: S` (no else) becomes `if a:` / `if b: S`."""
+    tree = ast.parse(src)
+    for n in ast.walk(tree):
+        if isinstance(n, ast.If) and not n.orelse and isinstance(n.test, ast.BoolOp) and isinstance(n.test.op, ast.And) and len(n.test.values) == 2:
+            a, b = n.test.values
+            inner = ast.If(test=b, body=n.body, orelse=[])
+            n.test = a
+            n.body = [inner]
+    return ast.unparse(ast.fix_missing_locations(tree)) + "\n"
+
+
+MODES = {"splitand": t_splitand, "dropelse": t_dropelse, "yoda": t_yoda, "annotate": t_annotate, "reformat": t_reformat, "shift": t_shift, "log": t_log, "rename": t_rename, "messages": t_messages, "swapelse": t_swapelse}
 
 
 def main():
